@@ -81,6 +81,7 @@ cv_i1 co_await_ready(COAW *this_)
 __CPROVER_requires(CO_PRE(this_)) CO_ASSIGNS(this_)
 __CPROVER_ensures(cv_exc_pending == 0 && __CPROVER_return_value <= 1)
 __CPROVER_ensures(__CPROVER_return_value == 1 ==> *gh_F_slot == F_DIS)              /* never "ready" before the result is set */
+__CPROVER_ensures(gh_allocs == __CPROVER_old(gh_allocs))
 #ifdef CV_CHECK_C03
 __CPROVER_ensures(__CPROVER_return_value == 1 ==> (gh_view & V_PAYLOAD))
 #endif
@@ -126,7 +127,8 @@ void atomic_bool_wait(ATOMB *flag, cv_i1 old, cv_i32 order) {
 __CPROVER_requires(CO_PRE(this_) && gh_my_node == 0 && gh_node_own == OWN_NONE && gh_wait_calls == 0 && *TLS_GUARD == 1 && *QINST == 0) \
 __CPROVER_assigns(*gh_F_slot, PROTF_GHOSTS, gh_wait_calls) \
 __CPROVER_ensures(cv_exc_pending == 0 && *gh_F_slot == F_DIS)                        /* returns only after the result is set (never early) */ \
-__CPROVER_ensures(gh_wait_calls <= 1 && gh_node_own != OWN_CHAIN && gh_node_own != OWN_RESOLVER)   /* the stack awaiter is not left subscribed */
+__CPROVER_ensures(gh_wait_calls <= 1 && gh_node_own != OWN_CHAIN && gh_node_own != OWN_RESOLVER)   /* the stack awaiter is not left subscribed */ \
+__CPROVER_ensures(gh_allocs == __CPROVER_old(gh_allocs))                                            /* C20: blocking wait uses a stack awaiter, no allocation */
 #endif
 #ifdef CV_HAS_co_sync
 void co_sync(COAW *this_) SYNC_CONTRACT(this_)
@@ -146,7 +148,7 @@ void atomic_bool_notify_all(ATOMB *flag) { gh_notify_calls++; }
 void sa_wakeup(SYNCAW *this_)
 __CPROVER_requires(cv_exc_pending == 0 && gh_P_cell == 0 && gh_F_slot == 0 && gh_notify_calls == 0 && gh_W_flag == (cv_i8 *)&this_->flag)
 __CPROVER_assigns(__CPROVER_object_whole(this_), gh_notify_calls)
-__CPROVER_ensures(cv_exc_pending == 0 && *(cv_i8 *)&this_->flag == 1 && gh_notify_calls == 1)
+__CPROVER_ensures(cv_exc_pending == 0 && *(cv_i8 *)&this_->flag == 1 && gh_notify_calls == 1 && gh_allocs == __CPROVER_old(gh_allocs))
 ;
 #endif
 /* ---- co_awaiter::await_resume() / wait(): read the result after readiness is known */
@@ -155,6 +157,6 @@ cv_i32 *co_await_resume(COAW *this_)
 __CPROVER_requires(cv_exc_pending == 0 && gh_INSTANCE == (void *)AW_INSTANCE && gh_DISABLED == (void *)AW_DISABLED && gh_P_cell == 0 && gh_F_slot == (void **)&this_->_owner->base_future_common._awaiter._M_b._M_p)
 __CPROVER_requires(*gh_F_slot == F_DIS && gh_slot_excl == 1 && this_->_owner->base_future_common._state == 1)
 __CPROVER_assigns()
-__CPROVER_ensures(cv_exc_pending == 0 && __CPROVER_return_value == (cv_i32 *)&this_->_owner->f1)       /* the stored value itself */
+__CPROVER_ensures(cv_exc_pending == 0 && __CPROVER_return_value == (cv_i32 *)&this_->_owner->f1 && gh_allocs == __CPROVER_old(gh_allocs))       /* the stored value itself */
 ;
 #endif
